@@ -58,7 +58,7 @@ __CPROVER_loop_invariant((size_t)i == g_k ==> a <= g_d)
 __CPROVER_decreases(A_ptr[(i) + 1] - a)
 '''
 diagonal = Unit(
-    name='builtin_diagonal', props=['C08', 'C10'],
+    name='builtin_diagonal', props=['C08', 'C06', 'C10'],
     functions=['backend::diagonal(const crs<V,C,P>&, bool invert)'],
     desc='dia[k] for every row k whose first stored entry with column k is d: dia[k] == d, or with invert '
          'is_zero(d) ? identity : inverse(d); the result has rows(A) cells; A is not modified; all sizes, all value types',
@@ -128,7 +128,7 @@ __CPROVER_loop_invariant(g_j < j ? A.val[g_j] == e_new : A.val[g_j] == g_v)
 __CPROVER_decreases(e - j)
 '''
 scale_ind = Unit(
-    name='builtin_scale_inductive', props=['C08', 'C10'],
+    name='builtin_scale_inductive', props=['C08', 'C03', 'C10'],
     functions=['backend::scale(crs&, T)'],
     desc='A := A*s for every size: every stored value (position < ptr[n]) is multiplied by s exactly once (value first, s second), '
          'cells beyond ptr[n] and the structure (sizes, ptr, col) are untouched',
@@ -333,7 +333,7 @@ __CPROVER_ensures(__CPROVER_return_value->nrows == A_p->nrows && __CPROVER_retur
 void h_f_product(void) { const crs *A, *B; _Bool sort; int nt; crs *hdr; f_product(A, B, sort, nt, hdr); }
 '''
 product = Unit(
-    name='builtin_product_dispatch', props=['C08', 'C10'],
+    name='builtin_product_dispatch', props=['C08', 'C03', 'C10'],
     functions=['backend::product(const crs&, const crs&, bool sort)'],
     desc='product(A,B,sort): exactly one SpGEMM of (A,B) in this order into a fresh default-constructed matrix; spgemm_rmerge '
          'iff more than 16 threads are available (OpenMP build), else spgemm_saad with the caller\'s sort flag; result returned',
@@ -838,7 +838,7 @@ unsigned char nondet_uchar(void);
 int w_n1, w_n2, w_need_out, w_alpha1, w_alpha2; Idx w_col1[LMAX], w_col2[LMAX]; int w_val1[LMAX], w_val2[LMAX];
 """
 merge_rows_cols = Unit(
-    name='spgemm_merge_rows_cols', props=['C08', 'C10'],
+    name='spgemm_merge_rows_cols', props=['C08', 'C03', 'C10'],
     functions=['backend::merge_rows<need_out, Idx>(col1, col1_end, col2, col2_end, col3)'],
     desc='merge of two strictly ascending column lists: returns col3 + |union|; with need_out the output is the strictly ascending union '
          '(every input column present, nothing else); without need_out nothing is written; cells beyond the result are untouched',
@@ -883,7 +883,7 @@ void h_merge_rows_cols(void)
 merge_rows_cols.cover_exempt = r'^(merge_vals|prod_row|prod_row_width)\.'   # the other members of the shared template are not called here
 
 merge_rows_vals = Unit(
-    name='spgemm_merge_rows_vals', props=['C08', 'C10'],
+    name='spgemm_merge_rows_vals', props=['C08', 'C03', 'C10'],
     functions=['backend::merge_rows<Idx, Val>(alpha1, col1, col1_end, val1, alpha2, col2, col2_end, val2, col3, val3)'],
     desc='weighted merge of two sparse rows with strictly ascending columns: the output is the strictly ascending union of the columns and the '
          'value at column c is alpha1*row1(c) + alpha2*row2(c); returns col3 + |union|; cells beyond the result are untouched',
@@ -968,7 +968,7 @@ static int sum_of_widths(const Idx *acol, int na, const crs *B)
 }
 """
 prod_row_width_u = Unit(
-    name='spgemm_prod_row_width', props=['C08', 'C10'],
+    name='spgemm_prod_row_width', props=['C08', 'C03', 'C10'],
     functions=['backend::prod_row_width(acol, acol_end, bptr, bcol, tmp_col1, tmp_col2, tmp_col3)', 'backend::merge_rows<need_out, Idx>'],
     desc='width of one product row: returns the number of distinct columns in the union of the rows of B selected by acol[0..na) (0..5 rows: '
          'all five code paths); B and acol unchanged; only the first W = sum of the merged widths cells of each of the three scratch windows are written',
@@ -1019,7 +1019,7 @@ MERGE_UNWIND = [(r'while\s*\(\s*acol', 'AMAX//2+1'), (r'while\s*\(\s*col[12]\b',
 prod_row_width_u.unwindset = MERGE_UNWIND
 
 prod_row_u = Unit(
-    name='spgemm_prod_row', props=['C08', 'C10'],
+    name='spgemm_prod_row', props=['C08', 'C03', 'C10'],
     functions=['backend::prod_row(acol, acol_end, aval, bptr, bcol, bval, out_col, out_val, tm2_col, tm2_val, tm3_col, tm3_val)', 'backend::merge_rows<Idx, Val>'],
     desc='one row of A*B by pairwise row merging: out_col[0..U) is the strictly ascending union of the selected rows of B and out_val the '
          'values sum_k aval[k]*B(acol[k], c) (0..5 entries in the row of A: all code paths); cells beyond U, B, acol, aval unchanged; scratch use within 2 windows of W cells',
@@ -1153,7 +1153,7 @@ static void prod_row(const Col *acol, const Col *acol_end, const Val *aval, cons
 }
 """
 spgemm_rmerge = Unit(
-    name='spgemm_rmerge', props=['C08', 'C10'],
+    name='spgemm_rmerge', props=['C08', 'C03', 'C10'],
     functions=['backend::spgemm_rmerge(const A&, const B&, C&)', 'crs::set_size', 'crs::scan_row_sizes', 'crs::set_nonzeros'],
     desc='row-merge SpGEMM (the algorithm product() selects with more than 16 threads): for B with strictly ascending rows and any A, '
          'dense(C) == dense(A)*dense(B), structural product pattern, well-formed CRS, rows of C strictly ascending (sorted, no duplicate column); '
